@@ -86,7 +86,15 @@ impl Q32E2 {
 
     #[inline]
     pub fn neg(&mut self) {
-        self.0 = self.0.wrapping_neg();
+        // two's complement of the whole 512-bit value
+        let mut limbs = self.to_bits();
+        let mut carry = true;
+        for l in limbs.iter_mut().rev() {
+            let (v, c) = (!*l).overflowing_add(carry as u64);
+            *l = v;
+            carry = c;
+        }
+        *self = Self::from_bits(limbs);
     }
 
     #[inline]
